@@ -60,6 +60,19 @@ func c14Size(r *rand.Rand) int64 {
 	}
 }
 
+var c14NearURLs = [][2]string{
+	{"http://crl.example/a.crl?partition=1", "http://crl.example/a.crl?partition=2"},
+	{"http://crl.example/a.crl", "http://crl.example/a.crl?"},
+	{"http://crl.example/a.crl", "http://crl.example/a.crl#"},
+	{"http://crl.example/a.crl", "HTTP://crl.example/a.crl"},
+	{"http://crl.example/a.crl", "http://CRL.example/a.crl"},
+	{"http://crl.example/a.crl", "http://crl.example:80/a.crl"},
+	{"http://crl.example/a.crl", "http://crl.example/%61.crl"},
+	{"http://crl.example/pki/a.crl", "http://crl.example/pki%2Fa.crl"},
+	{"http://crl.example/a.crl", "http://crl.example/./a.crl"},
+	{"http://crl.example/a%3Bv=1.crl", "http://crl.example/a;v=1.crl"},
+}
+
 func (c14) Gen(r *rand.Rand, tier string, idx int) *core.Plan {
 	p := &core.Plan{World: map[string]int64{}}
 	// distinct URLs, some of them near-identical (trailing slash, letter case of the path, surrounding blank):
@@ -69,6 +82,11 @@ func (c14) Gen(r *rand.Rand, tier string, idx int) *core.Plan {
 		urls = urls[:3]
 	} else if r.IntN(2) == 0 {
 		urls = []string{urls[0], urls[3], urls[4]}
+	} else if r.IntN(2) == 0 {
+		// spellings a URL library would call equivalent or nearly so (query only, escapes, case of scheme and
+		// host, fragment, default port): the cache keys on the string, each is its own entry
+		near := c14NearURLs[r.IntN(len(c14NearURLs))]
+		urls = []string{near[0], near[1], urls[r.IntN(2)]}
 	}
 	val := int64(0)
 	newSet := func(task int, url string, pad int64) core.Op {
